@@ -1,19 +1,19 @@
-\* GList: 3 replicas, 3 inserts, any delivery order, merges
+\* scenario List: identifiers of depth 3 (a || b, s || t between them, y between s and t; 3 actors, 5 inserts), then one more op (e.g. a delete) and causal deliveries
 CONSTANTS
-  Kind = "glist"
+  Kind = "list"
   NReps = 3
-  MaxOps = 3
-  Regime = "any"
-  UseMerge = TRUE
+  MaxOps = 6
+  Regime = "causal"
+  UseMerge = FALSE
   UseSnap = FALSE
   UseDup = FALSE
   DupElems = FALSE
   BeyondLen = 0
-  ScriptName = "none"
+  ScriptName = "deep_paths"
   Reps <- MCReps
   Actors <- MCActors
   ActorOf <- MCActorOf
-INIT Init
+INIT ScriptInit
 NEXT Next
 VIEW View
 ACTION_CONSTRAINT Edge
